@@ -230,6 +230,7 @@ func run(cfg *runCfg, mode string) int {
 		it := g.sweep[i]
 		ct := &Contract{Key: g.relKey(it.fn), Pkg: g.fnPkgPath(it.fn), Props: nil, SafetyProps: it.props, Loops: map[int]*LoopSpec{}}
 		fx := newFnExec(g, it.fn, ct)
+		fx.sweep = true
 		err := fx.run()
 		k := "sweep:" + it.fn.String()
 		r := &fnResult{key: k, fx: fx, err: err}
